@@ -2,7 +2,7 @@
 (* Focused input families for the formatter properties C05 / C06 (added after the seeded review).
 
    FmtGen.tla crosses every construct with 4 corner configurations (mode single) or with random lattice points
-   (mode sim).  Two regions of (program x configuration) need a DENSE cross that neither mode gives in the quick tier:
+   (mode sim).  Some regions of (program x configuration) need a DENSE cross that neither mode gives in the quick tier:
 
    family "quote"    every short string of FmtGen!EscStrs (escape sequences next to quote characters, both quote
                      kinds) in every string context  x  quote_style {Preserve, Double, Single}
@@ -18,11 +18,13 @@
                      thorough: the full product (1536 points) x PerPoint programs drawn by TLC per point.
    family "doc"      the doc-annotation blocks of FmtGen!Leading x a strength-2 orthogonal array over the 7 options
                      of `emmy_doc` (8 rows, ASSUME DocPairwiseOK); thorough: the full product (128).
+   family "lambda"   calls with a function argument (first / last / only / twice, in a method chain, nested, in a table
+                     field) whose body has 1-2 statements, written on one line and on several lines  x  2 configurations.
 
    Every state is one finished case, printed by FmtGen!Emit as {text, cfg, n, kinds = <<family>>}.  *)
 EXTENDS FmtGen, Randomization
 
-CONSTANTS Families,   \* subset of {"quote", "comment", "doc"}
+CONSTANTS Families,   \* subset of {"quote", "comment", "doc", "lambda"}
           Full,       \* FALSE: pairwise configuration sets (quick); TRUE: full products (thorough)
           PerPoint    \* Full only: programs drawn per configuration point
 
@@ -113,6 +115,20 @@ DocProgs == {l \o NL \o "local v = f 's'" : l \in Leading}
             \cup {l \o NL \o "function M.g(a, bb, ...) return a end" : l \in Leading}
 
 \* ---------------------------------------------------------------------------------------------
+\* family "lambda": calls with a function argument whose body cannot stay on one line (the layout of the argument
+\* list is decided from the SOURCE shape of the closure, so a closure written on one line and one written on
+\* several lines take different paths)
+\* ---------------------------------------------------------------------------------------------
+LamBodies == {"f()", "f() g()", "local y = x; return y", "return x", "if x then return b end return c"}
+LamOne(b) == "function(x) " \o b \o " end"
+LamMulti(b) == "function(x)" \o NL \o "    " \o b \o NL \o "end"
+LamCalls(l) == {"pcall(" \o l \o ")", "foo(a, " \o l \o ")", "foo(" \o l \o ", b)", "local r = o:m(a, 1, " \o l \o ")",
+                "o:on('x', " \o l \o "):on('y', " \o l \o ")", "describe('x', function() it('y', " \o l \o ") end)",
+                "return f(" \o l \o ", " \o l \o ")", "t = { k = f(" \o l \o ") }"}
+LambdaProgs == UNION {LamCalls(LamOne(b)) \cup LamCalls(LamMulti(b)) : b \in LamBodies}
+LambdaCfgs == {BaseCfg, Cfg("Preserve", "Preserve", "Never", FALSE, 120, "s2", TRUE, TRUE, "Always")}
+
+\* ---------------------------------------------------------------------------------------------
 FInit ==
   /\ n = 1 /\ done = TRUE /\ lc = FALSE
   /\ \E fam \in Families :
@@ -120,5 +136,6 @@ FInit ==
        /\ CASE fam = "quote" -> prog \in QuoteProgs /\ cfg \in QuoteCfgs
             [] fam = "comment" -> cfg \in CommentCfgs /\ prog \in ProgsFor(GroupProgs)
             [] fam = "doc" -> cfg \in DocCfgs /\ prog \in ProgsFor(DocProgs)
+            [] fam = "lambda" -> cfg \in LambdaCfgs /\ prog \in LambdaProgs
 FSpec == FInit /\ [][UNCHANGED vars]_vars
 =============================================================================
